@@ -244,6 +244,8 @@ func init() {
 		r.importing = "C02"
 		checkEqualityTables(r, prog, a, "c02")
 		checkJSONNumber(r, prog, a, "c02")
+		checkCoercionErrors(r, prog, a, "c02")
+		checkElementTransparency(r, prog, a, "c02")
 		r.importing = "C05"
 		checkValueLookup(r, prog, a, "c05")
 		checkDispositionTable(r, prog, "c05", false, true)
